@@ -222,6 +222,82 @@ def c17(run):
                            "intervals of an exhaustive scan + boundary windows + layout samples validated against the same module")
 
 
+DETERMINISTIC_R = {"insert", "get", "get_q", "contains", "get_mut", "get_kv_mut", "index", "remove", "remove_entry", "try_insert",
+                   "e_or_insert", "e_or_insert_with", "e_or_insert_with_key", "e_and_modify_or_insert", "e_insert", "e_remove",
+                   "e_remove_entry", "e_occ_insert", "e_occ_get_mut", "e_replace_some", "e_replace_none", "e_and_replace_some",
+                   "e_and_replace_none", "e_vacant_drop", "e_insert_entry", "e_into_key", "rc_or_insert", "rc_insert", "rc_remove",
+                   "rc_vacant_drop", "rc_insert_entry", "re_get", "eq", "replace", "take", "get_or_insert", "is_subset", "is_superset",
+                   "is_disjoint", "t_insert_unique", "t_find", "t_find_mut", "t_remove", "try_reserve"}
+
+
+def projection(path):
+    """API-level projection of a trace: per event the call, its result (where the abstract result is a function of the
+    abstract state), the panic class, and len + sorted contents of every table."""
+    out = []
+    with open(path) as f:
+        for line in f:
+            o = json.loads(line)
+            if o["op"] in ("reset", "end"):
+                continue
+            tabs = []
+            for s in o["s"]:
+                tabs.append((s["lv"], s["len"], sorted((d[0], d[1], d[2], d[3]) for d in s["d"] if d[0] >= 0)))
+            r = o["r"] if o["op"] in DETERMINISTIC_R and o["op"] != "try_reserve" else (o["r"][:1] if o["op"] == "try_reserve" else None)
+            out.append((o["op"], o["t"], o["k"], o["v"], r, o["pn"], sorted(o["dr"]), tabs))
+    return out
+
+
+def compare_backends(run, name):
+    a = os.path.join(vlib.TRACES, "%s_%s_sse2.ndjson" % (run.prop, name))
+    b = os.path.join(vlib.TRACES, "%s_%s_generic.ndjson" % (run.prop, name))
+    try:
+        pa, pb = projection(a), projection(b)
+    except OSError:
+        return
+    n = min(len(pa), len(pb))
+    for i in range(n):
+        if pa[i] != pb[i]:
+            run.violation("API-level projections of the SSE2 and the portable build differ at event %d of %s: %s vs %s" % (
+                i + 1, name, str(pa[i])[:300], str(pb[i])[:300]), {"kind": "backend-diff", "name": name, "event": i + 1,
+                "sse2": str(pa[i])[:2000], "generic": str(pb[i])[:2000]}, signature="backend-diff:%s" % pa[i][0])
+            return
+    if len(pa) != len(pb):
+        run.violation("traces of the two builds have different lengths for %s" % name, {"kind": "backend-diff", "name": name}, signature="backend-diff:len")
+        return
+    run.extra.setdefault("backend_projection_events_compared", 0)
+    run.extra["backend_projection_events_compared"] += n
+    vlib.log("  projections of %s equal on both builds (%d events)" % (name, n))
+
+
+def c18(run):
+    quick = run.tier == Q
+    run.assumptions += COMMON_ASSUMPTIONS
+    run.model("MC_group_q.cfg" if quick else "MC_group.cfg", "MC_group.tla", workers=8, timeout=900)
+    n = 1 if quick else 4
+    scen = {
+        "map": ["map:kv16:collide:24:%d:wide" % (700 * n), "map:k4v4:zero:14:%d:basic" % (400 * n), "map:kv16:fewpos:30:%d:entry" % (400 * n)],
+        "tab": ["table:te24:collide:20:%d:table" % (600 * n), "set:k8t:collide:20:%d:setalg" % (500 * n)],
+    }
+    jobs = []
+    for name, sc in scen.items():
+        for be in ("sse2", "generic"):
+            jobs.append(job(run, name, sc, backend=be))
+    # the generated behaviours of both widths are replayed on both builds
+    for W in (16, 8):
+        for be in ("sse2", "generic"):
+            jobs.append({"name": "corpus_w%d" % W, "backend": be,
+                         "args": ["replay", "--seed", str(run.seed), os.path.join(vlib.VERIF, "corpus", "map_w%d.ndjson" % W)]})
+    nr = "300" if quick else "3000"
+    for be, W in (("sse2", 16), ("generic", 8)):
+        jobs.append({"name": "prims", "backend": be, "args": ["prims", "--seed", str(run.seed), nr], "module": "HbGroupTrace.tla", "cfg": "HbGroupTrace.cfg"})
+    run.traces_parallel(jobs, workers=6)
+    for name in list(scen.keys()) + ["corpus_w16", "corpus_w8"]:
+        compare_backends(run, name)
+    return run.finish(rule="model: portable word tricks vs byte-wise definitions on all 2-byte windows of valid control bytes; code: scanner primitives of both "
+                           "builds validated against the definitions, identical seeded histories and generated behaviours run on both builds, "
+                           "each validated at its own width and compared event by event at the API level")
+
+
 def c13(run):
     return generic_check(run, [("MC_map_w2churn.cfg", "MC_map.tla", {"timeout": 300})], [],
         [("churn", ["map:kv16:collide:12:3000:churn", "map:kv16:zero:10:2000:churn"]),
@@ -263,6 +339,7 @@ CHECKS = {
     "C12": c12,
     "C13": c13,
     "C17": c17,
+    "C18": c18,
     "C14": c14,
     "C15": c15,
 }
